@@ -81,9 +81,12 @@ def findDt (dts : List Dt) (id : Nat) : Option Dt := dts.find? (live id)
 def updateDt (dts : List Dt) (id : Nat) (f : Dt → Dt) : List Dt :=
   dts.map (fun d => if live id d then f d else d)
 
-/-- downtime.cpp:495-502: write-once trigger_time, then SetupCleanupTimer. -/
+/-- downtime.cpp:496-504: write-once trigger_time, clamped to the downtime's own start_time
+    (`SetTriggerTime(std::fmax(triggerTime, GetStartTime()))`, fix 2efb740 for F-C05e; the recursion into
+    `triggers` passes the unclamped `triggerTime`, every chained downtime clamps to its own start), then
+    SetupCleanupTimer. -/
 def markTriggered (t : Int) (d : Dt) : Dt :=
-  let d1 := { d with trigger := if d.trigger == 0 then t else d.trigger }
+  let d1 := { d with trigger := if d.trigger == 0 then max t d.start else d.trigger }
   { d1 with cleanup := some (cleanupPoint d1) }
 
 /-- downtime.cpp:518 `OnDowntimeTriggered` → checkable.cpp:243-249 (flexible only) → DowntimeStart. -/
